@@ -6,10 +6,13 @@ loop by loop, see Tetl/C01/Model.lean) returns `.ok` — no read or write outsid
 no capacity overflow, no truncation of the narrow size field, no exhausted loop bound — and yields
 exactly the contents, iterator offset, count, pointer and comparison results of the list semantics
 in Tetl/C01/Spec.lean.  Whether a history is valid is decided from the spec state (`Spec.validHist`), not by
-running the model; that the model never fails is a conclusion.  Not covered by a theorem, by the nature of the
-model (objects are separate immutable lists, aliasing cannot be expressed): "a copy is independent of its
-source" — that clause is observed by the harness (copy, change the source, change the copy, dump both); the two
-`…_structural` statements at the end only record what the representation gives for free.  inplace_vector: only
+running the model; that the model never fails is a conclusion.  "A copy is independent of its source" is stated over
+interleaved histories (`copy_independent`, `interleave_projection`, `interleave_ok`): a theorem about the model's `step`
+(whose objects are separate lists) — that the C++ objects own their storage is observed by the harness on the same
+interleaved histories.  The observers are model functions of their own (`observers_refine…`), the size type is the
+chain extracted from the header (`size_fits`, `size_type_minimal_partial`), `remove_if`'s element move assignment is
+modelled (`eraseIf_refines` for every element kind), and what a moved-from object holds is stated by `moved_from_…`.
+inplace_vector: only
 the members etl::inplace_vector has (`supports .ipv`); the rest of std::inplace_vector's interface is the known
 finding F-C01-inplace-vector-missing-members (`ipv_step_partial`, `ipv_missing_counterexample`).
 Helper lemmas live in Lemmas / Rotate / Members* / System / History / Refine*.
@@ -78,6 +81,13 @@ theorem storage_selection_as_modelled :
       ∧ GenSize.sizeTypeUsers.map (fun u => u.1)
           = ["_vector/static_vector.hpp", "_vector/static_vector.hpp", "_inplace_vector/inplace_vector.hpp"]
       ∧ GenSize.paramType = "unsigned long long" := by decide
+
+/-- the other capacity-dependent layout switch of the library (`basic_inplace_string::layout_type`, modelled by C04
+    as `isTiny cap = cap < 16`), as extracted from the header: recorded here because it comes out of the same
+    extractor; C04's model itself is hand-written -/
+theorem string_layout_switch_as_extracted :
+    GenSize.stringLayoutSelect = [("(Capacity < 16)", "tiny_layout")] ∧ GenSize.stringLayoutElse = "normal_layout" := by
+  decide
 
 /-- hence no size update of a vector within its capacity is ever truncated or rejected -/
 theorem setSize_never_truncates (cap n : Nat) (hc : cap < 2 ^ 64) (hn : n ≤ cap) : setSize cap n = .ok () :=
@@ -290,14 +300,13 @@ example : Spec.validHist .ipv (Spec.SSys.init 1) [(0, .tryPush 0 5), (0, .tryPus
 example : Spec.validHist .sv (Spec.SSys.init 3) [(0, .push 0 1), (1, .moveCtor 0), (0, .pop)] = false := by decide
 example : validRun (Sys.init .sv 3 .nt) [(0, .push 0 1), (1, .moveCtor 0), (0, .pop)] = true := by decide
 
-/-! ## structural facts of the model (no evidence for "a copy is independent of its source")
+/-! ## frame facts of the model (building blocks of the independence theorems below)
 
 The model keeps the four objects as four separate immutable lists; `Sys.setObj k` replaces entry `k`.
-Sharing of storage between a copy and its source cannot be expressed in it, so the two statements below
-hold for *any* step function of this shape — they say that the model has no cross-object writes other
-than the ones spelled out in `step`, not that the C++ copy constructor makes a deep copy.  The
-independence clause of the property is checked on the real code by the harness (copy; change the source;
-change the copy; all four objects are dumped after every line). -/
+Sharing of storage between a copy and its source cannot be expressed in it, so the two statements below say that
+`step` has no cross-object writes other than the ones spelled out in it, not that the C++ copy constructor makes a
+deep copy.  On the real code the clause is checked by the harness (copy; change the source; change the copy,
+interleaved; `data()` lies inside the object; all four objects are dumped after every line). -/
 
 /-- (structural) a single-object operation of the model writes object `k` only -/
 theorem unary_frame_structural (s s' : Sys) (k : Nat) (op : Op) (o : Out) (hb : isBinary op = none)
